@@ -379,11 +379,28 @@ def history_rows(ctx):
                 if first == want_first and len(m.ranked_sensors_) == 8:
                     rows.append((f"SSPOR[{how}: refit on 12 sensors rejected, 8 sensors ranked].{meth}({cnt})",
                                  outcome(lambda: getattr(m, meth)(cnt)), "E:ValueError"))
+    # a count beyond the available sensors is an error with EVERY optimizer and data shape (the CCQR advice about more sensors
+    # than modes is only a warning and must not stand in for it)
+    from pysensors.optimizers import QR
+    Xwide = (np.arange(30, dtype=float).reshape(3, 10) * 7) % 11        # 3 examples, 10 sensors
+    Xtall = (np.arange(40, dtype=float).reshape(10, 4) * 3) % 7         # 10 examples, 4 sensors
+    for oname, mk in (("QR", QR), ("CCQR", CCQR), ("GQR", GQR)):
+        for dname, D in (("wide", Xwide), ("tall", Xtall)):
+            nfD = D.shape[1]
+            for extra in (1, 5, 990):
+                m = SSPOR(optimizer=mk(), n_sensors=nfD + extra)
+                rows.append((f"SSPOR({oname}, n_sensors=n_features+{extra}).fit({dname} data)",
+                             outcome(lambda: m.fit(D.copy(), quiet=True, seed=0)), "E:ValueError"))
+            m = SSPOR(optimizer=mk(), n_sensors=nfD).fit(D.copy(), quiet=True, seed=0)
+            rows.append((f"SSPOR({oname}, n_sensors=n_features).fit({dname} data) accepted", "ok", "ok"))
+            m2 = SSPOR(basis=Identity(n_basis_modes=2), optimizer=mk(), n_sensors=nfD + 2)
+            rows.append((f"SSPOR({oname}, Identity(2), n_sensors=n_features+2).fit({dname} data)",
+                         outcome(lambda: m2.fit(D.copy(), quiet=True, seed=0)), "E:ValueError"))
     for cell, real, req in rows:
         ctx.evaluations += 1
         ctx.nontriv("hist:" + cell)
         if req is not None and real != req:
-            ctx.violation("concrete", f"{cell}: {('accepted' if real == 'ok' else 'raised ' + real[2:])}, the property requires {req[2:]}",
+            ctx.violation("concrete", f"{cell}: {('accepted' if real == 'ok' else 'raised ' + real[2:])}, the property requires {req[2:] if req != 'ok' else 'acceptance'}",
                           {"signature": "invalid-request:history:" + ("accepted" if real == "ok" else real), "cell": cell, "observed": real, "required": req})
 
 
